@@ -18,7 +18,7 @@ def run(tier, seed):
     rep.assume("eBPF ISA model of vc/bpfvc; A-LE: the host is little endian (native formats = '<')")
     progs = S.programs(tier)
     rep.bound(f"Stage A: {len(progs)} programs (8 formats x 4 byte orders x read/write/update x "
-              f"{len(progs) // 96} offset/guard pairs) built with the real DSL; each is proved for all packet "
+              f"{len(progs) // 96} offset/guard pairs, plus explicit packetSize > / >= guards) built with the real DSL; each is proved for all packet "
               f"contents, all packet lengths and all source values; offsets are enumerated, not symbolic")
     pkt_len = z3.BitVec("pkt_len", 64)
     pkt0 = z3.Array("pkt0", z3.BitVecSort(64), z3.BitVecSort(8))
@@ -33,6 +33,7 @@ def run(tier, seed):
             rejected += 1
             rep.sample({"program": label, "rejected_by_generator": repr(e)})
             continue
+        kind = kind.partition(":")[0]
         meta[label] = (code, kind, fmt, p, guard, lv_addr)
         env = Env(ctx="xdp", pkt_len=pkt_len, pkt_mem=pkt0)
         res = bpf_run(code, env)
